@@ -45,12 +45,12 @@ func (r *Replayer) Choose(alts []verifrt.Alt) int {
 	costs := make([]int8, len(alts))
 	h := fnv.New64a()
 	for j, a := range alts {
+		// deviation bounding: alts[0] (keep running the current thread; else the lowest-numbered enabled thread with its first
+		// sub-choice) is the default and free; every other alternative - a preemption, another thread at a blocking point,
+		// a non-first ready select case, an injected fault, a crash - is one deviation.
 		var c int8
-		if a.Preempt {
-			c++
-		}
-		if a.NonDefaultSub {
-			c++
+		if j > 0 {
+			c = 1
 		}
 		costs[j] = c
 		h.Write([]byte(a.Desc))
@@ -249,7 +249,12 @@ func NewPool(n int) (*Pool, error) {
 	for i := 0; i < n; i++ {
 		cmd := exec.Command(exe, "worker")
 		cmd.Env = append(os.Environ(), "GOMAXPROCS=2", "GOGC=200")
-		cmd.Stderr = os.Stderr
+		// the engine prints a stack trace whenever its batch worker dies (debug.PrintStack); keep that out of the check's output
+		if f, ferr := os.Create(fmt.Sprintf("/verif/.work/worker-%d.err", i)); ferr == nil {
+			cmd.Stderr = f
+		} else {
+			cmd.Stderr = os.Stderr
+		}
 		stdin, err := cmd.StdinPipe()
 		if err != nil {
 			return nil, err
